@@ -176,8 +176,20 @@ def run_config(cfg, res):
       segmentations.append(proto.cut(data, pos))
       step = 13 if len(data) < 200000 else 65521
       segmentations.append([data[i:i + step] for i in range(0, len(data), step)])
-    for segs in segmentations:
-      o = proto.tcp_session(listener, segs, rec)
+    sessions = [(segs, None) for segs in segmentations]
+    if len(queued) >= 2:
+      # the next daemon's flow control pauses its listeners while one of these segments is being read
+      sessions.append((r.choice(segmentations), r.randrange(1, len(queued) + 1)))
+    for segs, pause_at in sessions:
+      if pause_at is None:
+        o = proto.tcp_session(listener, segs, rec)
+      else:
+        settings['USE_FLOW_CONTROL'] = True
+        try:
+          o = proto.tcp_session_with_pause(listener, segs, rec, pause_at)
+        finally:
+          settings['USE_FLOW_CONTROL'] = False
+        res.count('listener_sessions_paused_mid_segment')
       res.count('listener_sessions')
       wit = dict(queued=[repr(q) for q in queued[:10]], batch=batch, data=data[:400].hex())
       if o['exc'] is not None or o['disconnecting']:
